@@ -145,6 +145,10 @@ class BuildAssembly(Assembly):
         for i, scffld in enumerate(ordered_scaffolds):
             keep_start = i == 0
             keep_end = i == last_i
+            if frgmnt.strand == -1:
+                # Scaffolds are ordered by contig coordinate, but the keep
+                # flags refer to the scaffold-orientation ends of the row
+                keep_start, keep_end = keep_end, keep_start
             sub_fragments.append(scffld.trim_fragment(frgmnt, keep_start, keep_end))
         self.qc_sub_fragments(fnd, sub_fragments)
 
